@@ -39,7 +39,17 @@ for d in sorted(glob.glob(f"{R}/seeded/*/meta.json")):
     first = next((l for l in cr.get("lines", []) if l.startswith("obligation failed")), "")
     first = first.replace("obligation failed: ", "")[:170]
     valid = m.get("confirmed_by_me", {}).get("seed_valid")
+    rc = m.get("recheck", {})
+    if rc and not rc.get("applies", True):
+        valid = f"patch no longer applies to {rc.get('repo_head')} (verdict from the tree it was made for)"
+    first = first or next((l for l in cr.get("lines", []) if l.startswith("VIOLATION")), "")[:170]
     rows.append(f"| {sid} | {valid} | {cr.get('caught')} | {first} | {str(m.get('needs', ''))[:160]} |")
+n_all = len(rows) - 2
+n_valid = sum(1 for r in rows[2:] if r.split("|")[2].strip() == "True")
+n_caught = sum(1 for r in rows[2:] if r.split("|")[2].strip() == "True" and r.split("|")[3].strip() == "True")
+rows.append("")
+rows.append(f"{n_all} seeds; {n_valid} still break their property on the current tree (the others were turned harmless by a later fix or no longer apply); "
+            f"{n_caught} of these {n_valid} are reported as VIOLATION by the current check.")
 seed_tbl = "\n".join(rows)
 
 p = f"{R}/DESIGN.md"
